@@ -38,3 +38,22 @@ Proof.
   exists root, sz. rewrite Hs in H2. auto.
 Qed.
 Print Assumptions C01_any_chunker.
+
+(* the size-K splitter (chunker "size-K"; the default chunker is size-262144) modelled as a function: its chunks
+   concatenate to the input, so for EVERY input below 2^63 bytes, every K >= 1 and every width >= 2 the built file reads
+   back to the input - as a whole, under every history, with the true length *)
+From UV Require Import File.Chunker.
+Theorem C01_size_chunker_roundtrip : forall (W k : nat) (input : bytes),
+  (2 <= W)%nat -> (1 <= k)%nat -> (blen input < bound63)%N ->
+  exists root sz, build_file W (split_size (length input) k input) = Ok (root, sz)
+    /\ fst (fst (drain_all (stream nofault root 0) [] [])) = input
+    /\ snd (drain_all (stream nofault root 0) [] []) = StEOF
+    /\ (forall ops, map forget_loads (reader_run nofault root rs0 ops) = abs_run input 0 ops)
+    /\ node_length root = Ok (zlen input).
+Proof. exact size_chunker_roundtrip. Qed.
+Print Assumptions C01_size_chunker_roundtrip.
+
+Theorem C01_size_chunker_chunks : forall fuel k bs, (1 <= k)%nat -> (length bs <= fuel)%nat ->
+  concat (split_size fuel k bs) = bs /\ Forall (fun c => (1 <= length c <= k)%nat) (split_size fuel k bs).
+Proof. intros fuel k bs Hk Hf. split; [apply split_size_concat; assumption|apply split_size_chunks; assumption]. Qed.
+Print Assumptions C01_size_chunker_chunks.
